@@ -1,4 +1,5 @@
 import St4sd.Lemmas.C13
+import St4sd.Lemmas.C13Prod
 import St4sd.Lemmas.C13Sub
 /-!
 # C13 — A repeating observer sees its producers' final output and then stops
@@ -35,13 +36,78 @@ private theorem invBD_all (cfg : Cfg) (hr : 1 ≤ cfg.retries) (hp : cfg.preOutp
     (fun s op hs => ⟨invB_step cfg s op hs.1, invD_step cfg hr s op hs.1 hs.2⟩) h _
     ⟨invB_init cfg, invD_init cfg hp⟩
 
+private theorem invE_all (cfg : Cfg) (h : List Op) : InvE (exec cfg h) :=
+  run_induction InvE (fun s op hs => invE_step cfg s op hs) h _ (invE_init cfg)
+
+/-- which components count as having output after history `h`: output that predates `run()` or an `out` of
+the component somewhere in `h` -/
+private theorem outs_of_history (cfg : Cfg) (h : List Op) (c : Nat) (hc : c ∈ (exec cfg h).outs) :
+    c ∈ cfg.pre ∨ Op.env (.out c) ∈ h := by
+  rcases outs_sound cfg c h (init cfg) hc with h1 | h1
+  · exact Or.inl (List.mem_filter.mp h1).1
+  · exact Or.inr h1
+
 /-- Clause 1: the engine never executes before there is producer output it can consume: every launch in
-every history happened when some producer output existed (or the component has no producers at all), and
-the `consume` flag is only ever set in that situation. -/
+every history happened when EVERY producer of the observer's own stage had output (`Exec.avail` records
+`canConsume` of the moment of the launch; a component without producers, or with producers of earlier stages
+only, can always consume), and the `consume` flag is only ever set in that situation. -/
 theorem no_exec_before_consume (cfg : Cfg) (h : List Op) :
     (∀ e ∈ (exec cfg h).execLog, e.avail = true) ∧
-    ((exec cfg h).consume = true → cfg.noProd = true ∨ (exec cfg h).hasOutput = true) :=
-  ⟨(invA_all cfg h).2, (invA_all cfg h).1⟩
+    ((exec cfg h).consume = true → ∀ p ∈ cfg.prods, p.same = true → p.id ∈ (exec cfg h).outs) :=
+  ⟨(invA_all cfg h).2.1, fun hc => (canConsume_iff cfg _).mp ((invA_all cfg h).1 hc)⟩
+
+/-- the former statement of clause 1 (one same-stage producer): if the observer has no producers or at least
+one in its own stage, whoever consumes has no producers or there is producer output -/
+theorem consume_implies_some_output (cfg : Cfg) (h : List Op)
+    (hs : cfg.noProd = true ∨ ∃ p ∈ cfg.prods, p.same = true) :
+    (exec cfg h).consume = true → cfg.noProd = true ∨ (exec cfg h).hasOutput = true := by
+  intro hc
+  rcases hs with hs | ⟨p, hp, hs⟩
+  · exact Or.inl hs
+  · exact Or.inr ((invA_all cfg h).2.2 p.id ((no_exec_before_consume cfg h).2 hc p hp hs)).1
+
+/-- Clause 1, operationally, for every list of producers: whenever the next operation `op` after a history `h`
+launches an execution (the execution log grows), every producer of the observer's own stage - in whatever
+position of `job.producerInstances`, however many there are - has output that predates `run()` or appeared
+somewhere in `h`, i.e. BEFORE the launch. -/
+theorem launch_implies_output_of_every_same_stage_producer (cfg : Cfg) (h : List Op) (op : Op)
+    (hl : (exec cfg (h ++ [op])).execLog ≠ (exec cfg h).execLog) :
+    ∀ p ∈ cfg.prods, p.same = true → p.id ∈ cfg.pre ∨ Op.env (.out p.id) ∈ h := by
+  rw [exec_snoc] at hl
+  have hcc : canConsume cfg (exec cfg h).outs = true := by
+    have := launch_step cfg _ op hl
+    cases hc : (exec cfg h).consume with
+    | true => exact (invA_all cfg h).1 hc
+    | false => simpa [hc] using this
+  intro p hp hs
+  exact outs_of_history cfg h p.id ((canConsume_iff cfg _).mp hcc p hp hs)
+
+/-- … and as a statement about whole histories: as long as SOME producer of the observer's own stage has
+produced no output (none before `run()`, no `out` in the history), nothing was ever launched and the engine
+does not claim it can consume - wherever that producer stands in the list and whatever the others have
+produced. -/
+theorem no_launch_while_a_same_stage_producer_has_no_output (cfg : Cfg) (h : List Op) (p : Prod)
+    (hp : p ∈ cfg.prods) (hs : p.same = true) (hpre : p.id ∉ cfg.pre) (hout : Op.env (.out p.id) ∉ h) :
+    (exec cfg h).execLog = [] ∧ (exec cfg h).consume = false := by
+  have hc : (exec cfg h).consume = false := by
+    cases hc : (exec cfg h).consume with
+    | false => rfl
+    | true =>
+      rcases outs_of_history cfg h p.id ((no_exec_before_consume cfg h).2 hc p hp hs) with h1 | h1
+      · exact absurd h1 hpre
+      · exact absurd h1 hout
+  refine ⟨?_, hc⟩
+  cases hl : (exec cfg h).execLog with
+  | nil => rfl
+  | cons e es =>
+    have := invE_all cfg h (by simp [hl])
+    rw [hc] at this
+    exact absurd this (by decide)
+
+/-- producers of other (earlier) stages never block: `canConsume` looks at same-stage entries only -/
+theorem other_stage_producers_do_not_count (cfg : Cfg) (outs : List Nat)
+    (h : ∀ p ∈ cfg.prods, p.same = false) : canConsume cfg outs = true :=
+  canConsume_no_same cfg outs h
 
 /-- Clause 2a: while the producers have not finished, nobody but an external `kill()` sets the cancel
 event: the engine never stops itself early (neither through its success/retries bookkeeping nor through the
@@ -131,7 +197,7 @@ theorem stopped_no_more_launches (cfg : Cfg) (s : St) (o : Outcome) (hpc : s.pc 
 /-! ## Non-vacuity: concrete scripted histories satisfying the hypotheses -/
 
 def cfgFixed : Cfg :=
-  { retries := 3, dieAfter := false, noProd := false, alwaysNew := false, preOutput := false,
+  { retries := 3, dieAfter := false, prods := [⟨0, true, true⟩], pre := [],
     guardNone := true, killOnSuicidePoll := true }
 
 private def it0 : Iter := { gap := [], s0 := [], s1 := [], s2 := [], s3 := [], s4 := [], out := .ok }
@@ -140,7 +206,7 @@ private def it0 : Iter := { gap := [], s0 := [], s1 := [], s2 := [], s3 := [], s
 sample of the second poll, then a successful launch that sees the final output: stopped by `success` -/
 def histSuccess : List Op :=
   (runScript cfgFixed (init cfgFixed)
-    [{ it0 with s0 := [.out] }, { it0 with s1 := [.out, .fin] }, it0, it0]).2
+    [{ it0 with s0 := [.out 0] }, { it0 with s1 := [.out 0, .fin] }, it0, it0]).2
 
 example : Fixed cfgFixed ∧ 1 ≤ cfgFixed.retries ∧ cfgFixed.preOutput = false :=
   ⟨⟨rfl, rfl⟩, by decide, rfl⟩
@@ -149,17 +215,42 @@ example : let s := exec cfgFixed histSuccess
     s.cause = some .success ∧ s.consume = true ∧ s.hasOutput = true ∧ s.prodDone = true ∧
     s.pc = .stopped ∧ s.execLog.length = 2 ∧ s.retries = 2 ∧ s.pollsFin = 1 := by decide
 
+def cfgNonRep : Cfg := { cfgFixed with prods := [⟨0, true, false⟩] }
+
 /-- the task generator raises on every launch after the producers finished (non-repeating producer, so
 every poll launches): with the repair every failed launch uses up a retry and the engine stops by `retries`
 after 4 polls -/
 def histRaises : List Op :=
-  (runScript { cfgFixed with alwaysNew := true } (init cfgFixed)
-    ([{ it0 with s0 := [.out] }, { it0 with gap := [.fin], out := .raised }] ++
+  (runScript cfgNonRep (init cfgNonRep)
+    ([{ it0 with s0 := [.out 0] }, { it0 with gap := [.fin], out := .raised }] ++
       List.replicate 7 { it0 with out := .raised })).2
 
-example : let s := exec { cfgFixed with alwaysNew := true } histRaises
+example : let s := exec cfgNonRep histRaises
     s.cause = some .retries ∧ s.pc = .stopped ∧ s.pollsFin = 4 ∧ s.books = 4 ∧ s.retries = 0 ∧
     s.execLog.length = 5 := by decide
+
+/-- three producer entries: component 5 (same stage, listed FIRST, slow), component 2 of an earlier stage,
+component 7 (same stage, listed LAST, fast).  Output of 7 alone (several polls) launches nothing; once 5 has
+output too the next poll launches. -/
+def cfgStaggered : Cfg :=
+  { cfgFixed with prods := [⟨5, true, true⟩, ⟨2, false, false⟩, ⟨7, true, true⟩] }
+
+def histStaggered : List Op :=
+  (runScript cfgStaggered (init cfgStaggered)
+    [{ it0 with s0 := [.out 7] }, { it0 with gap := [.out 7] }, it0]).2
+
+example : (⟨5, true, true⟩ : Prod) ∈ cfgStaggered.prods ∧ (5 : Nat) ∉ cfgStaggered.pre ∧
+    Op.env (.out 5) ∉ histStaggered ∧ Op.env (.out 7) ∈ histStaggered ∧
+    (exec cfgStaggered histStaggered).hasOutput = true ∧ (exec cfgStaggered histStaggered).books = 0 := by
+  decide
+
+example : let h := histStaggered ++ [.env (.out 5), .eng .ok, .eng .ok, .eng .ok]
+    (exec cfgStaggered (h ++ [.eng .ok])).execLog ≠ (exec cfgStaggered h).execLog ∧
+    (exec cfgStaggered (h ++ [.eng .ok])).consume = true := by decide
+
+/-- producers of an earlier stage only: can consume from the start -/
+example : (exec { cfgFixed with prods := [⟨0, false, false⟩] } [.eng .ok, .eng .ok, .eng .ok, .eng .ok]).execLog.length = 1 := by
+  decide
 
 /-! ## The subscription that delivers the producers-finished notification -/
 
@@ -201,6 +292,22 @@ theorem notified_iff_all_producers_finished (refs : List Pid) (h : List SubOp) :
     · intro ⟨_, hall⟩ p hp
       have := (hfin p).mpr (hall p hp)
       simpa using this
+
+/-- an engine of a producer that exits - and may be restarted by the controller - while the component stays
+alive (postmortem / running again) is no finish: it never makes the subscription fire and leaves its state
+unchanged -/
+theorem engine_exit_is_no_finish (s : Sub) (p : Pid) :
+    fires s (.pexit p) = false ∧ subStep s (.pexit p) = s := by
+  simp [fires, subStep, b2n]
+
+/-- … for whole histories: any number of engine exits and restarts of any component, anywhere in the history
+(producer exits -> is restarted -> exits for good and is finished), changes nothing about whether the
+notification has been delivered: only the finishes of the components count. -/
+theorem notification_ignores_engine_exits (refs : List Pid) (h : List SubOp) :
+    (subExec refs h).notified =
+      (subExec refs (h.filter (fun o => match o with | .pexit _ => false | _ => true))).notified := by
+  rw [Bool.eq_iff_iff, notified_iff_all_producers_finished, notified_iff_all_producers_finished]
+  simp [List.mem_filter]
 
 /-- it is called at most once -/
 theorem notified_at_most_once (refs : List Pid) (h : List SubOp) : (subExec refs h).count ≤ 1 := by
@@ -287,12 +394,14 @@ example : (subExec [0, 2] [.pfin 2, .pfin 0, .stageIn]).notified = true ∧
 
 /-- a composed history: producer 0 finished earlier, stage-in, output, a launch, producer 1 finishes while the
 task runs, next poll launches again and succeeds: stopped by `success` after all producers finished -/
+def cfgTwoStages : Cfg := { cfgFixed with prods := [⟨1, true, true⟩, ⟨0, false, false⟩] }
+
 def histComposed : List COp :=
-  [.ev (.sub (.pfin 0)), .ev (.sub .stageIn), .ev (.x .out), .eng .ok, .eng .ok, .eng .ok, .eng .ok,
-   .ev (.x .out), .ev (.sub (.pfin 1)), .eng .ok, .eng .ok,
+  [.ev (.sub (.pfin 0)), .ev (.sub .stageIn), .ev (.x (.out 1)), .eng .ok, .eng .ok, .eng .ok, .eng .ok,
+   .ev (.x (.out 1)), .ev (.sub (.pfin 1)), .eng .ok, .eng .ok,
    .eng .ok, .eng .ok, .eng .ok, .eng .ok, .eng .ok, .eng .ok, .eng .ok, .eng .ok]
 
-example : let c := cexec cfgFixed [1, 0] histComposed
+example : let c := cexec cfgTwoStages [1, 0] histComposed
     c.eng.cause = some .success ∧ c.eng.prodDone = true ∧ c.eng.pc = .stopped ∧ c.eng.execLog.length = 2 ∧
     c.sub.notified = true ∧ c.sub.count = 1 := by decide
 
